@@ -48,6 +48,7 @@ DIGITSUB = ("bn_digit_mult", "bn_digit_div", "bn_digit_gcd", "bn_digit_gcd_bin",
 
 F_NULL_CARRY = 1
 F_NULL_SIZERET = 2
+F_DIGIT_JUNK = 4      # second run fills dead digits with the digit values 1,2,3,0,all-ones (rotated by patB)
 NOSLOT = 255
 EINVAL, EOVERFLOW = 22, 75
 EXPORT_AUTO = 1
@@ -1373,6 +1374,8 @@ def gen_case(rng, pool):
     for cap, v in ops:
         if v < 0 or v.bit_length() > _roundup(cap, 8):
             raise ValueError("generator produced an operand outside [0, 2^capacity) for %s" % OPNAME[op])
+    if rng.chance(1, 2):
+        flags |= F_DIGIT_JUNK
     c = Case(op, ops, slots, x, dg, buf, flags, tag.strip())
     c.patA = rng.range(2, 255)
     c.patB = c.patA
@@ -1785,6 +1788,47 @@ def directed_cases(seed, w, L):
         if c.patA == c.patB:
             c.patB = 2 + (c.patB + 1) % 250
         out.append(c)
+    # (3) operations with small-operand fast paths, operands that are zero or short, every small
+    #     digit value (1,2,3,0,all-ones) once in the first dead digit of every operand
+    capS = min(256, maxd * w)
+    m = 0xffffffffffffffc5 if capS >= 64 else 251            # primes: 2^64-59, 251
+    xs = (0, 1, 2, 3, m - 1, 0x1234567 % m)
+    base = []
+    for xv in xs:
+        for e in (0, 1, 2, 3):
+            base.append(Case(OP_MOD_EXP, [(capS, xv), (capS, e), (capS // 2, m)], [0, 1, 2]))
+            base.append(Case(OP_MOD_EXP_DIGIT, [(capS, xv), (capS // 2, m)], [0, 1], [e, 0, 0]))
+        for yv in (0, 1, 2, 3):
+            base.append(Case(OP_MULT, [(capS, xv), (capS // 2, yv)], [0, 1]))
+            base.append(Case(OP_MULT_DIGIT, [(capS, xv)], [0], dg=yv))
+            base.append(Case(OP_ADD, [(capS, xv), (capS // 2, yv)], [0, 1]))
+            base.append(Case(OP_SUB, [(capS, xv), (capS // 2, yv)], [0, 1]))
+            base.append(Case(OP_CMP, [(capS, xv), (capS // 2, yv)], [0, 1]))
+            base.append(Case(OP_OR, [(capS, xv), (capS // 2, yv)], [0, 1]))
+            base.append(Case(OP_GCD, [(capS, 5), (capS, xv), (capS, yv)], [0, 1, 2]))
+            base.append(Case(OP_MOD_MULT, [(capS, xv), (capS // 2, yv), (capS // 2, m)], [0, 1, 2]))
+            if yv:
+                base.append(Case(OP_DIV, [(capS, xv), (capS // 2, yv), (capS // 2, 9)], [0, 1, 2]))
+                base.append(Case(OP_MOD, [(capS, xv), (capS // 2, yv)], [0, 1]))
+        for k in (0, 1, 8, w):
+            base.append(Case(OP_LSHIFT, [(capS, xv)], [0], [k, 0, 0]))
+            if k <= nd(xv, w) * w:
+                base.append(Case(OP_RSHIFT, [(capS, xv)], [0], [k, 0, 0]))
+        base.append(Case(OP_QUERY, [(capS, xv)], [0], [rng.below(w), 0, 0]))
+        base.append(Case(OP_SQUARE, [(capS, xv)], [0]))
+        base.append(Case(OP_EXP_DIGIT, [(capS, xv)], [0], dg=rng.below(4)))
+        base.append(Case(OP_NAF, [(capS, xv)], [0], [2 + rng.below(3), xv.bit_length() + 2, 0]))
+        base.append(Case(OP_JSF, [(capS, xv), (capS, 3)], [0, 1], [2 * (max(xv.bit_length(), 2) + 1), 0, 0]))
+        base.append(Case(OP_EXPORT, [(capS, xv)], [0], [rng.below(4), rng.below(2), 20]))
+        base.append(Case(OP_MOD_REDUCE, [(capS, xv), (capS // 2, m)], [0, 1]))
+    for bi, bc in enumerate(base):
+        for r in range(5):
+            c = Case(bc.op, bc.ops, bc.slots, bc.x, bc.dg, bc.buf, bc.flags | F_DIGIT_JUNK, "small-stale-digits")
+            c.patA = 2 + (bi * 13 + r * 7) % 250
+            c.patB = 5 * (1 + (bi + 3 * r) % 49) + r          # patB mod 5 == r: rotates the small-value table
+            if c.patB == c.patA:
+                c.patA += 1
+            out.append(c)
     cap = min(128, maxd * w)
     nby = cap // 8
     for g in NONHEX:
